@@ -1,6 +1,9 @@
 package core_domain
 
-import "strings"
+import (
+	"sort"
+	"strings"
+)
 
 type CodeDataStruct struct {
 	NodeName        string
@@ -38,6 +41,18 @@ func (d *CodeDataStruct) SetMethodFromMap(methodMap map[string]CodeFunction) {
 	for _, value := range methodMap {
 		methodsArray = append(methodsArray, value)
 	}
+
+	// map iteration order is random: keep the functions in source order so that every run builds the same model
+	sort.SliceStable(methodsArray, func(i, j int) bool {
+		a, b := methodsArray[i].Position, methodsArray[j].Position
+		if a.StartLine != b.StartLine {
+			return a.StartLine < b.StartLine
+		}
+		if a.StartLinePosition != b.StartLinePosition {
+			return a.StartLinePosition < b.StartLinePosition
+		}
+		return methodsArray[i].Name < methodsArray[j].Name
+	})
 
 	d.Functions = methodsArray
 }
